@@ -39,6 +39,9 @@ def run(ck):
     r5_copy(ck, w)
     r6_backends(ck, w)
     r7_cycle_walk(ck, w)
+    r8_instance_bound(ck, w)
+    r9_instance_padding(ck, w)
+    r10_mock_report(ck, w)
     from . import c10
     c10.eval_ops(ck, w, 'C02', 'C02.N1')
 
@@ -71,6 +74,10 @@ def r6_backends(ck, w):
         for m in ('assign_fixed', 'enable_selector', 'copy', 'fill_from_row'):
             f = w.fn(pre + m)
             guards = [c for c in hirq.calls(f['body']) if c.get('m') == 'contains' and any(x.get('k') == 'field' and x['n'] == 'usable_rows' for x in walk(c['recv']))]
+            if m == 'fill_from_row':
+                # from_row == usable_rows.end is legitimate (the column is full already): a comparison with the end of the range is the guard here
+                guards += [x for x in walk(f['body']) if x.get('k') == 'bin' and x.get('op') in ('>', '>=', '<', '<=')
+                           and any(y.get('k') == 'field' and y['n'] == 'usable_rows' for y in walk(x))]
             need = 2 if m == 'copy' else 1
             ck.record('C02.R6', f'{name}:{m}:usable-rows-guard', len(guards) >= need, f'{len(guards)} usable_rows.contains(..) test(s)',
                       f'{pre + m} no longer checks that the rows it touches are usable rows (found {len(guards)}, expected {need})', hirq.fn_loc(f))
@@ -282,3 +289,89 @@ def r7_cycle_walk(ck, w):
                 ck.record('C02.R7', f'{f["_nid"]}|cursor:{name}', ok, f'stops when `{name}` is back at its start',
                           f'{f["_nid"]}: {why}: the walk ends one cell early (or late) and part of the cycle is not relabelled', hirq.fn_loc(f, lp))
     ck.floor('C02.R7', 'cycle-walk loops in the permutation keygen', n_loops, 1)
+
+
+VERIFIER_FNS = ('midnight_proofs::plonk::verifier::parse_trace', 'midnight_proofs::plonk::verifier::verify_algebraic_constraints')
+
+
+def r8_instance_bound(ck, w, rule='C02.R8'):
+    """public inputs beyond the domain are refused"""
+    from ..engines import taint
+    from ..core import walk, callee
+    ck.rule(rule, 'public-input values: the verifier evaluates the instance columns through Lagrange polynomials taken modulo the domain size, so entry n of a '
+                  'column would be added to row 0 (a proof for pi[0] = 12 verifies for pi = [5, 0, .., 0, 7]).  parse_trace and verify_algebraic_constraints — both '
+                  'public entry points — leave with an error when a plain instance column is longer than the usable rows: an escaping conditional whose condition '
+                  'depends on a column length and on ConstraintSystem::blinding_factors (the bound the prover enforces with InstanceTooLarge).')
+    for nid in VERIFIER_FNS:
+        f = w.fn(nid, required=False)
+        if f is None:
+            ck.bad(rule, f'{short(nid)}:anchor', f'{nid} not found (anchor)')
+            continue
+        ok = False
+        for x in walk(f['body']):
+            if x.get('k') != 'if' or not taint.diverges(x['a']):
+                continue
+            deps = hir_cond_deps(f['body'], x['c'])
+            if any(d.endswith('::blinding_factors') for d in deps) and any(d.endswith('::len') for d in deps):
+                ok = True
+        ck.record(rule, f'{short(nid)}:bounds-instance-columns', ok, 'an escaping conditional compares the column lengths with the usable rows',
+                  f'{nid} accepts instance columns of any length: entries beyond the domain are folded onto the first rows and a proof is accepted for public inputs '
+                  f'that differ from the witnessed ones', hirq.fn_loc(f))
+
+
+def hir_cond_deps(body, cond):
+    """callees mentioned by a condition, following `let` bindings of the enclosing body (closures included)"""
+    from ..core import walk, callee, pat_bindings
+    lets = {}
+    for x in walk(body):
+        if x.get('k') == 'let' and 'init' in x:
+            for b in pat_bindings(x['pat']):
+                lets[b['i']] = x['init']
+    out, seen, stack = set(), set(), [cond]
+    while stack:
+        n = stack.pop()
+        for y in walk(n):
+            if y.get('k') in ('call', 'mcall'):
+                out.add(callee(y) or '')
+            if y.get('k') == 'local' and y.get('i') in lets and y['i'] not in seen:
+                seen.add(y['i'])
+                stack.append(lets[y['i']])
+    return out
+
+
+def r9_instance_padding(ck, w, rule='C02.R9'):
+    """prover, mock checker and verifier agree on the padding of the public inputs"""
+    from ..core import walk, callee
+    ck.rule(rule, 'the public inputs are zero-padded: the verifier sums over the provided entries only, MockProver::query_instance answers Padding = 0, and create_proof '
+                  'documents it.  WitnessCollection::query_instance (what assign_advice_from_instance reads while proving) therefore defaults a usable row after the '
+                  'provided entries (unwrap_or / map_or / unwrap_or_default on the element lookup) instead of turning the missing element into an error: otherwise '
+                  'an assignment the mock checker accepts cannot be proven.')
+    fs = [f for f in w.all_fns(['proofs']) if f['_xid'].endswith('::query_instance') and 'WitnessCollection' in f['_xid']]
+    if not fs:
+        ck.bad(rule, 'WitnessCollection::query_instance:anchor', 'WitnessCollection::query_instance not found (anchor)')
+    for f in fs:
+        calls = [callee(c) or '' for c in hirq.calls(f['body'])]
+        elem = any(c.endswith('::get') for c in calls)
+        dflt = any(c.endswith(('Option::unwrap_or', 'Option::unwrap_or_default', 'Option::map_or', 'Option::unwrap_or_else', 'Option::map_or_else')) for c in calls)
+        ck.record(rule, 'WitnessCollection::query_instance:pads', elem and dflt, 'a missing row of an existing column reads as zero',
+                  f'{f["_nid"]} looks the row up (get: {elem}) but does not default a missing element (default: {dflt}): rows after the provided public inputs '
+                  f'fail with BoundsFailure although the mock checker and the verifier read them as zero', hirq.fn_loc(f))
+
+
+def r10_mock_report(ck, w, rule='C02.R10'):
+    """the mock checker returns its failures"""
+    from ..core import walk, callee
+    ck.rule(rule, 'MockProver::verify promises a Result: the helper of dev/util.rs that renders the cells of a violated gate (cell_value, closures included) contains no '
+                  'panicking macro (unreachable!/panic!/unwrap).  A violated gate may query a poisoned cell of a blinding row whose contribution was cancelled by '
+                  'a zero factor; rendering it must not abort the report.')
+    n = 0
+    for f in w.all_fns(['proofs']):
+        if not f['file'].endswith('dev/util.rs') or f.get('name') != 'cell_value' or '::tests' in f['_nid']:
+            continue
+        n += 1
+        pan = sorted({short(callee(c) or '') for c in hirq.calls(f['body']) if (callee(c) or '').startswith(('core::panicking::', 'std::rt::begin_panic', 'core::panic'))
+                      or (callee(c) or '').endswith(('Option::unwrap', 'Result::unwrap', 'Option::expect', 'Result::expect'))})
+        ck.record(rule, f'{f["_nid"]}:no-panic', not pan, 'renders every queried cell without panicking',
+                  f'{f["_nid"]} contains {pan}: MockProver::verify aborts instead of returning ConstraintNotSatisfied when a violated gate also queries a '
+                  f'cancelled blinding-row cell', hirq.fn_loc(f))
+    ck.floor(rule, 'cell renderers', n, 1)
